@@ -61,7 +61,9 @@ func (t *Type) isMat() bool    { return t.Kind == KMat }
 func (t *Type) isNumeric() bool {
 	return (t.isScalar() || t.isVec() || t.isMat()) && t.Elem != KBool
 }
-func (t *Type) isInt() bool   { return (t.isScalar() || t.isVec()) && (t.Elem == KInt || t.Elem == KUint) }
+func (t *Type) isInt() bool {
+	return (t.isScalar() || t.isVec()) && (t.Elem == KInt || t.Elem == KUint)
+}
 func (t *Type) isFloat() bool { return (t.isScalar() || t.isVec() || t.isMat()) && t.Elem == KFloat }
 func (t *Type) isBoolish() bool {
 	return (t.isScalar() || t.isVec()) && t.Elem == KBool
